@@ -19,7 +19,7 @@ func init() {
 			"C05.persist — path-sensitive typestate of the big writer's Flush (loops unrolled, phis resolved per path, nil tests pruned): no bitmap method is called on a nil bitmap, no bitmap that received row ids is replaced or left at a successful return without having been serialised into the data bucket (first key with hash 0, last bitmap, every bitmap in between); " +
 			"C05.txlife — path-sensitive typestate of bbolt transactions in both writers: after Commit no method is called on that transaction or on a bucket obtained from it until both are re-derived (the 1001st value of the in-memory writer); " +
 			"C05.flushorder — the big writer commits its pending temp transaction before it opens the read transaction on the temp database; " +
-			"C05.sorted — slices filled while ranging over the schema's maps (GetSchema: columns and values) are sorted ascending by their string key before use; " +
+			"C05.sorted — slices filled while ranging over the schema's maps (GetSchema: columns and values) are sorted ascending by their string key before use, or are slices.Sorted over the maps' keys, and are not reversed afterwards; " +
 			"C05.codec — writers and readers of the three record kinds (bitmap key, row counter, temp key) agree on byte order, width and offsets (= C01.codec); C05.schemaenc — both writers gob-encode their schema field under the schema key and the open function decodes that key into the same type; C05.rowcount — the row counter written is the writer's own counter field (one per AddRow call, also for rows without columns); C05.schemaadd — every path through schema.add finds or enters both the column and the value in the schema maps before it returns an index. " +
 			"NOT decided: observational identity of the two writers' outputs and exact schema/value sets (values); idempotence of reopening beyond the file not being written (C16).",
 		assumptions: []string{"bbolt: a transaction and its buckets are invalid after Commit", "roaring ToBytes serialises the whole bitmap", "encoding/gob round-trips the schema type", "loops unrolled up to 3 iterations cover the first/next/same-value cases of the merge loop"},
@@ -733,6 +733,10 @@ func persistsParam(c *Ctx, h *ssa.Function, p ssa.Value) bool {
 // values by value) every path from the entry to a return either takes the edge on which the lookup of the argument
 // reported "present" or passes a map update under that argument; and what is returned is the looked-up or stored
 // index. A shortcut that returns without consulting the maps leaves a pair out of the stored schema.
+// A call of a get-or-create helper (getOrCreateHelper: looks the key up, and if it is missing stores the constructor's
+// result under it) with the argument as key is "found or entered" in one step; a helper that does not store what it
+// built is not recognised as one, so that variant is still reported as "never enters". The per-argument analysis is
+// keyRecorded (below), which also follows a module helper that is handed the argument (`sch.column(k)`).
 func schemaAddRule(c *Ctx, rule string) {
 	sa := c.a.SchemaAdd
 	if sa == nil || len(sa.Params) != 3 || len(sa.Blocks) == 0 {
@@ -744,58 +748,92 @@ func schemaAddRule(c *Ctx, rule string) {
 		if pi == 0 {
 			continue
 		}
-		par := ssa.Value(sa.Params[pi])
-		var oks []ssa.Value
-		nUpd := 0
-		allInstrs(sa, func(i ssa.Instruction) {
-			switch x := i.(type) {
-			case *ssa.Lookup:
-				if x.CommaOk && x.Index == par {
-					if e := extractOf(x, 1); e != nil {
-						oks = append(oks, e)
-					}
-				}
-			case *ssa.MapUpdate:
-				if x.Key == par {
-					nUpd++
-				}
-			}
-		})
 		construct := "(*schema).add: " + what
+		nUpd, w := keyRecorded(c, sa, sa.Params[pi], 0)
 		if nUpd == 0 {
 			c.r.bad(rule, construct, fmt.Sprintf("schema.add never enters its %s argument into a map: the stored schema cannot list it", what), []string{c.w.pos(sa.Pos())})
 			continue
 		}
-		isOK := func(v ssa.Value) bool {
-			for _, o := range oks {
-				if o == v {
-					return true
-				}
-			}
-			return false
-		}
-		w := fc.pathAvoidingEdges(sa,
-			func(i ssa.Instruction) bool { _, ok := i.(*ssa.Return); return ok },
-			func(i ssa.Instruction) bool { mu, ok := i.(*ssa.MapUpdate); return ok && mu.Key == par },
-			func(pred, succ *ssa.BasicBlock) bool {
-				iff, ok := pred.Instrs[len(pred.Instrs)-1].(*ssa.If)
-				if !ok || len(pred.Succs) != 2 {
-					return false
-				}
-				cond, pol := iff.Cond, pred.Succs[0] == succ
-				for {
-					if u, ok := cond.(*ssa.UnOp); ok && u.Op == token.NOT {
-						cond, pol = u.X, !pol
-						continue
-					}
-					break
-				}
-				return isOK(cond) && pol
-			})
 		if w != nil {
 			c.r.bad(rule, construct, fmt.Sprintf("a path through schema.add returns although its %s argument was neither found in nor entered into the schema: rows are recorded under an index whose pair the stored schema does not list", what), []string{c.w.ipos(w[len(w)-1])}, fc.witnessStrings(w)...)
 		} else {
 			c.r.ok(rule, construct, fmt.Sprintf("every return follows a successful lookup or an insertion of the %s", what), c.w.pos(sa.Pos()))
 		}
 	}
+}
+
+// keyRecorded is the per-argument analysis of C05.schemaadd: in fn, is the parameter par "found in or entered into a
+// map" before fn returns? Events that enter it: a map update under par; a call of a get-or-create helper with par as
+// key; a call of a module helper that is handed par and itself records that parameter on every path (followed two
+// levels deep, e.g. `col := sch.column(k)`). It returns the number of entering sites and, if some path from the entry
+// to a return neither takes an edge on which a comma-ok lookup of par reported "present" nor passes an entering event,
+// that path as witness. (Arguments are compared after peel: a parameter captured by a function literal is spilled into
+// a cell and loaded again.)
+func keyRecorded(c *Ctx, fn *ssa.Function, par ssa.Value, depth int) (nEnter int, witness []ssa.Instruction) {
+	isPar := func(v ssa.Value) bool { return v == par || peel(v) == par }
+	isEnter := func(i ssa.Instruction) bool {
+		if mu, ok := i.(*ssa.MapUpdate); ok {
+			return isPar(mu.Key)
+		}
+		if _, key, _, ok := getOrCreateCall(c, i); ok {
+			return isPar(key)
+		}
+		call, ok := i.(*ssa.Call)
+		if !ok || depth >= 2 {
+			return false
+		}
+		h := calleeFunc(&call.Call)
+		if h == nil || h == fn || h.Blocks == nil || !c.w.inModule(h) {
+			return false
+		}
+		for k, a := range call.Call.Args {
+			if k < len(h.Params) && isPar(a) {
+				if n, w := keyRecorded(c, h, h.Params[k], depth+1); n > 0 && w == nil {
+					return true
+				}
+			}
+		}
+		return false
+	}
+	var oks []ssa.Value
+	allInstrs(fn, func(i ssa.Instruction) {
+		if x, ok := i.(*ssa.Lookup); ok && x.CommaOk && isPar(x.Index) {
+			if e := extractOf(x, 1); e != nil {
+				oks = append(oks, e)
+			}
+		}
+		if isEnter(i) {
+			nEnter++
+		}
+	})
+	if nEnter == 0 {
+		return 0, nil
+	}
+	isOK := func(v ssa.Value) bool {
+		for _, o := range oks {
+			if o == v {
+				return true
+			}
+		}
+		return false
+	}
+	witness = c.fc.pathAvoidingEdges(fn,
+		func(i ssa.Instruction) bool { _, ok := i.(*ssa.Return); return ok },
+		isEnter,
+		func(pred, succ *ssa.BasicBlock) bool {
+			iff, ok := pred.Instrs[len(pred.Instrs)-1].(*ssa.If)
+			if !ok || len(pred.Succs) != 2 {
+				return false
+			}
+			cond, pol := iff.Cond, pred.Succs[0] == succ
+			for {
+				if u, ok := cond.(*ssa.UnOp); ok && u.Op == token.NOT {
+					cond, pol = u.X, !pol
+					continue
+				}
+				break
+			}
+			return isOK(cond) && pol
+		})
+	return nEnter, witness
 }
